@@ -28,7 +28,8 @@ RULE = ("(trace) fixed set 2..30 atoms, mobile tree 1..12 atoms (input arrays in
         "0.01*E_held/E_new, and E_new<=E_held always accepted. Non-trivial = the trace contains an accepted-worse "
         "proposal, a rejection and a counter reset after the counter was >0. Distinct = sha1 of the case JSON.")
 ASSUMPTIONS = [
-    "Python engine; energies are > 0 (an exact zero needs perfectly coincident molecules)",
+    "Python engine; energies are > 0 except for the generated class of perfectly coincident molecules (measure exactly 0.0 "
+    "at the start), where a worse proposal has acceptance probability 0",
     "the loop resolves Chi2Calculator / accept_metropolis / move_mol_atom through gaddlemaps._backend at call time "
     "(if nothing is recorded the check exits 2 instead of judging code it did not observe)",
     "acceptance probabilities are tested to a 6-sigma band: a rule off by a few percent in probability is not detected",
@@ -46,6 +47,13 @@ def case_strategy(draw, tier):
     restr = draw(ac.restraint_list(nf, nm, max_len=5))
     if draw(st.integers(0, 7)) == 0:
         restr = [[i, int(rng.integers(0, nm))] for i in range(nf)]        # every fixed atom restrained
+    coincident = draw(st.integers(0, 9)) == 0
+    if coincident:
+        # perfect overlap from the start: every fixed atom sits exactly on a mobile atom (measure exactly 0.0) -
+        # the search still has to run for exactly its budget
+        pick = rng.integers(0, nm, nf)
+        fixed = mob[pick].copy()
+        restr = [[int(i), int(pick[i])] for i in range(nf)][:draw(st.integers(0, nf))]
     deform = draw(ac.deformation_types(nm, allow_none=False))
     big = tier == "thorough" and draw(st.integers(0, 9)) == 0
     steps = draw(st.integers(150, 2000)) if big else draw(st.integers(1, 150))
@@ -53,7 +61,7 @@ def case_strategy(draw, tier):
     return {"fixed": fixed.tolist(), "mobile": mob.tolist(), "edges": edges, "lengths": lengths,
             "restr": restr, "deform": list(deform), "steps": steps,
             "sigma": draw(st.sampled_from([0.5, 0.2, 1.0])), "width": draw(st.sampled_from([0.1, 0.3, 1.0])),
-            "seed": draw(gen.SEEDS),
+            "seed": draw(gen.SEEDS), "coincident": coincident,
             "mem": [draw(st.sampled_from(gen.ARRAY_LAYOUTS)),
                     draw(st.sampled_from(gen.ARRAY_LAYOUTS + (["float32", "float32"] if tuple(deform) == (0,) else [])))]}
 
@@ -219,7 +227,7 @@ def check(case):
                                 "(differs by %.3e)%s" % (label, np.abs(result - held).max(), best_note))
     nt = acc_worse > 0 and rejections > 0 and resets_after_wait > 0
     return {"nontrivial": nt,
-            "classes": ["mobile:%s" % ("1" if len(mob0) == 1 else "2+"), "deform:" + "".join(map(str, sorted(deform))), "restraints" if restr else "no-restraints",
+            "classes": ["mobile:%s" % ("1" if len(mob0) == 1 else "2+"), "zero-measure-start" if case.get("coincident") else "positive-start", "deform:" + "".join(map(str, sorted(deform))), "restraints" if restr else "no-restraints",
                         "accepted-worse" if acc_worse else "no-accepted-worse",
                         "budget:%s" % ("<=20" if budget <= 20 else "<=150" if budget <= 150 else ">150")] +
                        ["move:" + k for k in moves],
@@ -232,7 +240,11 @@ def check(case):
 @st.composite
 def accept_case(draw, tier):
     e0 = 10.0 ** draw(st.floats(-3, 3))
-    kind = draw(st.sampled_from(["worse", "worse", "worse", "equal", "better"]))
+    kind = draw(st.sampled_from(["worse", "worse", "worse", "equal", "better", "zero-zero", "zero-new", "zero-held"]))
+    if kind.startswith("zero"):
+        # exact zeros (perfect overlap), as Python floats or numpy scalars
+        e0, e1 = {"zero-zero": (0.0, 0.0), "zero-new": (e0, 0.0), "zero-held": (0.0, e0)}[kind]
+        return {"e0": e0, "e1": e1, "kind": kind, "draws": 2000, "seed": draw(gen.SEEDS), "numpy_scalars": draw(st.booleans())}
     if kind == "worse":
         ratio = draw(st.sampled_from([0.999, 0.9, 0.5, 0.2, 0.05])) * draw(st.floats(0.8, 1.0))
         e1 = e0 / ratio
@@ -246,7 +258,19 @@ def accept_case(draw, tier):
 
 def check_accept(case):
     e0, e1, n = case["e0"], case["e1"], case["draws"]
+    if case.get("numpy_scalars"):
+        e0, e1 = np.float64(e0), np.float64(e1)
     np.random.seed(case["seed"])
+    if case["kind"] == "zero-held":
+        acc = sum(1 for _ in range(n) if lib("accept", gaddlemaps.accept_metropolis, e0, e1))
+        if acc:
+            raise PropertyViolation("accept-probability", "E_held=0, E_new=%r: probability 0.01*0/E_new = 0, accepted %d of %d" % (e1, acc, n))
+        return {"nontrivial": False, "classes": ["accept:zero-held"]}
+    if case["kind"] in ("zero-zero", "zero-new"):
+        acc = sum(1 for _ in range(n) if lib("accept", gaddlemaps.accept_metropolis, e0, e1))
+        if acc != n:
+            raise PropertyViolation("always-accept-better", "E_new=%r <= E_held=%r accepted in %d of %d draws" % (e1, e0, acc, n))
+        return {"nontrivial": False, "classes": ["accept:" + case["kind"]]}
     acc = 0
     with env.quiet():
         for _ in range(n):
